@@ -215,6 +215,8 @@ class Caller(Unit):
             for kk in v:
                 if v[kk] is None:
                     v[kk] = rng.uniform(0.3, 3.0)
+            if k % 7 == 3:
+                v["A"] = 0.0          # edge case: a vanishing prefactor must be passed through, not replaced by a default
             if mname == "harmonic_hertz":
                 v["r_c"] = v["sigma"]
                 v["r"] = v["sigma"] * rng.uniform(0.1, 0.95)
